@@ -546,9 +546,27 @@ impl QueryGen {
         if nonempty.is_empty() || rng.chance(1, 10) {
             return ((0..rng.urange(1, 5)).map(|_| rand_hash(rng)).collect(), "absent");
         }
-        let x = &truth[*rng.pick(&nonempty)];
+        let xh = *rng.pick(&nonempty);
+        let x = &truth[xh];
         let a = rng.usize_below(x.len());
-        match rng.below(6) {
+        match rng.below(7) {
+            6 => {
+                // the tail of a xorb followed by what lies behind its last chunk entry in a shard file: the next xorb's
+                // header (its first 32 bytes are that xorb's hash; shards are sorted by xorb hash) or the bookend
+                let a = x.len() - rng.urange(1, x.len().min(3));
+                let mut q: Vec<MerkleHash> = x[a..].iter().map(|c| c.0).collect();
+                let pos = self.xorbs.iter().position(|h| h == xh).unwrap();
+                let next = match rng.below(4) {
+                    0 => MerkleHash::from(&[0xffu8; 32]),
+                    1 => *xh,
+                    _ => self.xorbs.get(pos + 1).copied().unwrap_or(MerkleHash::from(&[0xffu8; 32])),
+                };
+                q.push(next);
+                if rng.chance(1, 2) {
+                    q.push(rand_hash(rng));
+                }
+                (q, "tail-then-next-header")
+            },
             0 => {
                 let l = rng.urange(1, x.len() - a);
                 (x[a..a + l].iter().map(|c| c.0).collect(), "run")
